@@ -14,7 +14,7 @@ pub fn spec() -> PropSpec {
     PropSpec {
         id: "C11",
         level: "exploration",
-        rule: "full product: read op (4) x frame below the operands {[],[77]} x external address {A,B} x key {[],[5],[5,6],[MAX]} x key-length operand {right, one too large, negative} x count {0,1,2,3,-1,MAX} x memory address {0,1,2,len-2,len,-1,MAX} x memory size {0,1,4,8,12,40} (pattern pre-filled) x environment answer {[], [[]], [[9]], [[9,8],[7]], [[],[1,2,3]], one value fewer than asked, one more than asked, three values of 4 words, Err}; pre and post views are different recorders with different contents. Oracle: exactly one call on the right view with (solved contract | popped 4-word address, popped key, popped count); memory equals the documented layout with every other word and the length unchanged; stack = frame; does-not-fit / bad operands => Err; a state Err comes back unchanged. non-trivial = the state was actually asked; distinct by full input tuple",
+        rule: "full product: read op (4) x frame below the operands {[],[77]} x external address {A,B} x solution index {only solution, last of three solutions of different contracts} x key {[],[5],[5,6],[MAX],[MIN,0,7],[1;9]} x key-length operand {right, one too large, negative} x count {0,1,2,3,-1,MAX} x memory address {0,1,2,len-2,len,-1,MAX} x memory size {0..8,12,40} (pattern pre-filled) x environment answer {[], [[]], [[9]], [[9,8],[7]], [[],[1,2,3]], one value fewer than asked, one more than asked, three values of 4 words, Err}; pre and post views are different recorders with different contents. Oracle: exactly one call on the right view with (solved contract | popped 4-word address, popped key, popped count); memory equals the documented layout with every other word and the length unchanged; stack = frame; does-not-fit / bad operands => Err; a state Err comes back unchanged. non-trivial = the state was actually asked; distinct by full input tuple",
         assumptions: &["the request is observed through a recording StateRead; answers are chosen by the harness (the state is the environment)"],
         run,
         replay,
@@ -36,6 +36,9 @@ pub struct Case {
     pub addr: W,
     pub mem: usize,
     pub answer: u8,
+    /// 0: one solution, index 0; k > 0: three solutions of different contracts, the VM runs for index k
+    #[serde(default)]
+    pub idx: u8,
 }
 
 type Req = (bool, [u8; 32], Vec<W>, usize);
@@ -89,13 +92,14 @@ struct REnv {
     sols: Vec<Solution>,
     log: Mutex<Vec<Req>>,
     answer: u8,
+    index: usize,
 }
 impl RefEnv for REnv {
     fn solutions(&self) -> &[Solution] {
         &self.sols
     }
     fn index(&self) -> usize {
-        0
+        self.index
     }
     fn key_range(&self, post: bool, contract: [u8; 32], key: &[W], n: usize) -> Result<Vec<Vec<W>>, String> {
         self.log.lock().unwrap().push((post, contract, key.to_vec(), n));
@@ -137,17 +141,25 @@ fn build(c: &Case) -> RVm {
 fn check(c: &Case, rep: &mut Report) {
     let init = build(c);
     let op = the_op(c.op);
-    let sols = vec![test_solution(vec![])];
+    let mut sols = vec![test_solution(vec![])];
+    if c.idx > 0 {
+        for b in [0xC2u8, 0xC3] {
+            let mut s = test_solution(vec![]);
+            s.predicate_to_solve.contract = ca(b);
+            sols.push(s);
+        }
+    }
+    let index = c.idx as usize;
     // real
     let log = Arc::new(Mutex::new(vec![]));
     let state = Both(Rec { post: false, log: log.clone(), answer: c.answer }, Rec { post: true, log: log.clone(), answer: c.answer });
     let mut vm = real_vm_from(&init);
-    let access = essential_vm::Access { solutions: Arc::new(sols.clone()), index: 0 };
+    let access = essential_vm::Access { solutions: Arc::new(sols.clone()), index };
     let ops = [op.clone()];
     let r = catch(|| essential_vm::sync::step_op(access, op.clone(), &mut vm, &state, &ops[..], &|_: &Op| 1, GasLimit::UNLIMITED));
     let real_log = log.lock().unwrap().clone();
     // reference
-    let env = REnv { sols, log: Mutex::new(vec![]), answer: c.answer };
+    let env = REnv { sols, log: Mutex::new(vec![]), answer: c.answer, index };
     let mut rvm = init.clone();
     let rr = refvm::step_simple(&mut rvm, &op, &env);
     let ref_log = env.log.lock().unwrap().clone();
@@ -199,9 +211,12 @@ fn check(c: &Case, rep: &mut Report) {
 
 fn cases(thorough: bool, mut f: impl FnMut(u64, Case)) {
     let mut i = 0u64;
-    let mems: &[usize] = if thorough { &[0, 1, 2, 3, 4, 5, 6, 7, 8, 12, 40] } else { &[0, 1, 4, 8, 12, 40] };
-    let keys: Vec<Vec<W>> = if thorough { vec![vec![], vec![5], vec![5, 6], vec![MAX], vec![MIN, 0, 7], vec![1; 9]] } else { vec![vec![], vec![5], vec![5, 6], vec![MAX]] };
-    for op in 0..4u8 {
+    let mems: &[usize] = if thorough { &[0, 1, 2, 3, 4, 5, 6, 7, 8, 9, 12, 13, 40] } else { &[0, 1, 2, 3, 4, 5, 6, 7, 8, 12, 40] };
+    let keys: Vec<Vec<W>> = vec![vec![], vec![5], vec![5, 6], vec![MAX], vec![MIN, 0, 7], vec![1; 9]];
+    let counts: &[W] = if thorough { &[0, 1, 2, 3, 4, 5, -1, MIN, MAX] } else { &[0, 1, 2, 3, -1, MAX] };
+    let idxs: &[u8] = if thorough { &[0, 1, 2] } else { &[0, 2] };
+    for &idx in idxs {
+      for op in 0..4u8 {
         for frame in [vec![], vec![77]] {
             for ext in 0..2u8 {
                 if (op == 0 || op == 2) && ext == 1 {
@@ -209,12 +224,16 @@ fn cases(thorough: bool, mut f: impl FnMut(u64, Case)) {
                 }
                 for key in keys.clone() {
                     for klen_mode in 0..3u8 {
-                        for count in [0, 1, 2, 3, -1, MAX] {
+                        for &count in counts {
                             for &mem in mems {
-                                for addr in [0, 1, 2, mem as W - 2, mem as W, -1, MAX] {
+                                let mut addrs = vec![0, 1, 2, mem as W - 2, mem as W, -1, MAX];
+                                if thorough {
+                                    addrs.extend([3, mem as W - 1, mem as W + 1, MIN]);
+                                }
+                                for addr in addrs {
                                     for answer in 0..9u8 {
                                         i += 1;
-                                        f(i, Case { op, frame: frame.clone(), ext, key: key.clone(), klen_mode, count, addr, mem, answer });
+                                        f(i, Case { op, frame: frame.clone(), ext, key: key.clone(), klen_mode, count, addr, mem, answer, idx });
                                     }
                                 }
                             }
@@ -223,11 +242,12 @@ fn cases(thorough: bool, mut f: impl FnMut(u64, Case)) {
                 }
             }
         }
+      }
     }
 }
 
 fn run(cfg: &RunCfg, rep: &mut Report) {
-    rep.bound_completed = format!("full product of the listed menus{}", if cfg.tier == Tier::Thorough { " plus memory sizes 2,3,5,6,7 and keys [MIN,0,7], [1;9]" } else { "" });
+    rep.bound_completed = format!("full product of the listed menus{}", if cfg.tier == Tier::Thorough { " plus memory sizes 9,13, counts 4,5,MIN, addresses 3,len-1,len+1,MIN, solution index 1" } else { "" });
     cases(cfg.tier == Tier::Thorough, |i, c| {
         if cfg.mine(i / 64) {
             if i % 20011 == 0 {
